@@ -46,7 +46,11 @@ def expected_conditional(method: str, current_etag, last_modified, inm, im, ims)
         verdicts = if_match_admits(current_etag, im[0], im[1])
         out = set()
         if True in verdicts:
-            out.add(200)
+            # the precondition holds: the request proceeds to the remaining validator (RFC 9110 13.2.2 steps 1 -> 3/4)
+            if ims is not None and last_modified is not None and trunc(last_modified) <= ims:
+                out.add(304)
+            else:
+                out.add(200)
         if False in verdicts:
             out.add(412)
         return out
